@@ -24,7 +24,7 @@ for t in tg:
 	q, i, ov = (t + (None, None))[:3]
 	if q.endswith(qual) and (inst is None or i == inst):
 		if len(t) > 3 and t[3] is not None:
-			eng.registry = Registry(); t[3](eng.registry)
+			eng.registry = Registry(); t[3](eng.registry); eng.specns = dict(mod.SPECNS); eng.specns.update(getattr(t[3], 'specns', {}))
 		t0 = time.time()
 		eng.verify_function(q, i, ov)
 		print('generated', len(eng.obligations), 'in', round(time.time() - t0, 1), 's; paths', eng.paths)
